@@ -128,6 +128,9 @@ def run(ctx):
             for p in s.paths:
                 if any(e[0] == 'I2OSP' and e[1] == 'Err' for e in p.events):
                     rep.ob('R05.4', '%s: failure of the length encoder reaches an Err return' % which, not p.ok, 'Ok path after I2OSP failure', w, sn)
+        # ---- R05.7 the integer encoder itself
+        from rules import encoder
+        encoder.check_encoder(ctx, rep, 'R05.7', sn)
         # ---- R05.5
         for which in ('sreg_start', 'slog_start'):
             s = api_summary(ctx, sn, which)
